@@ -75,6 +75,7 @@ func privateDoc(i int) *sbom.Document {
 
 var (
 	spdxBytes [4][]byte
+	cdxBytes  [4][]byte
 	tvDocs    = []string{"SPDXVersion: SPDX-2.3\nDataLicense: CC0-1.0\n", "DataLicense: CC0-1.0\nSPDXVersion: SPDX-2.2\n", "# nothing\nSPDXVersion:\n\"SPDX-2.3\"\n"}
 )
 
@@ -85,6 +86,11 @@ func prepareInputs() {
 			panic(err)
 		}
 		spdxBytes[i] = b
+		cb, err := rw.Write(privateDoc(i), formats.CDX15JSON, 0)
+		if err != nil {
+			panic(err)
+		}
+		cdxBytes[i] = cb
 	}
 }
 
@@ -174,6 +180,21 @@ func alphabet() []call {
 				return "err:" + err.Error()
 			}
 			return fmt.Sprintf("packages=%d", bytes.Count(buf.Bytes(), []byte(`"SPDXID": "SPDXRef-n`)))
+		}},
+		{"WriteStream(private, cdx15)", func(i int) string {
+			var buf bytes.Buffer
+			w := writer.New(writer.WithFormat(formats.CDX15JSON))
+			if err := w.WriteStream(privateDoc(i), nopCloser{&buf}); err != nil {
+				return "err:" + err.Error()
+			}
+			return fmt.Sprintf("components=%d", bytes.Count(buf.Bytes(), []byte(`"bom-ref": "n`)))
+		}},
+		{"ParseStream(private, cdx15)", func(i int) string {
+			d, err := reader.New().ParseStream(bytes.NewReader(cdxBytes[i]))
+			if err != nil {
+				return "err:" + err.Error()
+			}
+			return fmt.Sprintf("nodes=%d", len(d.NodeList.Nodes))
 		}},
 	}
 }
@@ -267,6 +288,30 @@ func Run(c *engine.Ctx) {
 	c.Bound("pairs", fmt.Sprintf("all %d unordered pairs of %d calls as 2-thread scenarios, every schedule with <= %d preemptions", len(scenarios), len(al), bound))
 	runScenarios(c, al, scenarios, bound)
 
+	if !c.Thorough() {
+		// quick: three-thread registry scenarios with a preemption bound of 1
+		reg := []int{0, 1, 2, 4, 5, 6}
+		var sc3 []scenario
+		for _, a := range reg {
+			for _, b := range reg {
+				for _, d := range reg {
+					sc3 = append(sc3, scenario{calls: [][]int{{a, 2}, {b, 6}, {d}}})
+				}
+			}
+		}
+		c.Group("triples")
+		c.Bound("triples", fmt.Sprintf("%d three-thread scenarios over the registry calls (two calls on two threads, one on the third), every schedule with <= 2 preemptions", len(sc3)))
+		runScenarios(c, al, sc3, 2)
+		var sc2 []scenario
+		for a := range al {
+			for b := range al {
+				sc2 = append(sc2, scenario{calls: [][]int{{a, b}, {b, a}}})
+			}
+		}
+		c.Group("pairs-2calls")
+		c.Bound("pairs-2calls", fmt.Sprintf("%d two-thread scenarios with two calls per thread, every schedule with <= 1 preemption", len(sc2)))
+		runScenarios(c, al, sc2, 1)
+	}
 	if c.Thorough() {
 		// 3 threads x 2 registry calls each, unbounded preemptions
 		reg := []int{0, 1, 2, 4, 5, 6}
